@@ -136,6 +136,7 @@ func runC07(e *Env) {
 				simrt.Sleep(int64(e.Pick(1, 3, 20)) * int64(time.Millisecond))
 			}
 			closeInvokedSeq = simrt.Step()
+			e.LocalCloseAt, e.ReaderTask = closeInvokedSeq, "reader"
 			conn.Close()
 		})
 	}
